@@ -99,7 +99,7 @@ class C15:
                    'a resulting pitch with more than two accidentals is unconstrained: the call may raise or produce anything for that note',
                    'note cells are located through the generator\'s abstract document, pitch fields through the @-separated eKern cell']
     PROBES = ['fails_midway', 'chain_len_ge_3', 'result_needs_accidental', 'octave_crossed', 'down_direction', 'back_restores',
-              'interrupt_delivered', 'invalid_argument', 'clone_then_transpose', 'source_rechecked_after_transpose', 'background_pitch_api', 'long_score_over_recursion_limit']
+              'interrupt_delivered', 'invalid_argument', 'clone_then_transpose', 'source_rechecked_after_transpose', 'background_pitch_api', 'long_score_over_recursion_limit', 'reentrant_callback_delivered']
 
     # ---------------------------------------------------------------- plan
     def gen_plan(self, seed, index, tier):
@@ -141,6 +141,11 @@ class C15:
             if kind == 'transpose':
                 iv = rng.choice(EXTREME) if rng.random() < 0.25 else rng.choice(ALL_INTERVALS)
                 ops.append({'op': 'transpose', 'h': h, 'iv': iv, 'dir': rng.choice(['up', 'down'])})
+                if faulty and frng.random() < 0.15:
+                    # re-entrancy: at a seeded line event of this to_transposed a callback (signal handler, finalizer, logging
+                    # hook) uses the public pitch API for ANOTHER pitch and returns; two transpositions are then in flight at once
+                    ops[-1]['reenter'] = {'k_u': frng.randrange(1 << 30), 'pitch': frng.choice(['c', 'dd', 'E', 'f#', 'gg-', 'AA', 'b-', 'cc#']),
+                                          'iv': frng.choice(['M2', 'm3', 'P5', 'A4', 'octave', 'd5']), 'dir': frng.choice(['up', 'down'])}
             elif kind == 'back':
                 ops.append({'op': 'back', 'h': h})
             elif kind == 'clone':
@@ -333,7 +338,10 @@ class C15:
                     hi = handles.index(h)
                 exp_cells, may_fail, uncon = self._expected(docs[h['src']], h, new_chain, kind)
                 try:
-                    r = h['doc'].to_transposed(fresh(iv), fresh(direction))
+                    if kind == 'transpose' and op.get('reenter'):
+                        r = self._transpose_with_nested_call(kp, op, h, texts, fresh, iv, direction, add_v, probes, bump, faults, log)
+                    else:
+                        r = h['doc'].to_transposed(fresh(iv), fresh(direction))
                 except Exception as e:
                     log.emit('client', kind, [hi, iv, direction], 'raised ' + type(e).__name__)
                     if may_fail:
@@ -419,7 +427,49 @@ class C15:
         nontrivial = n_notes > 0 and ok_transposes > 0 and probes.get('source_rechecked_after_transpose', 0) > 0
         shape = digest_of([[d.shape() for d in docs], [[o.get('op'), o.get('iv'), o.get('dir'), o.get('h')] for o in plan['ops']]])
         return {'digest': log.digest(), 'events': log.seq, 'faults': faults, 'probes': probes, 'shape': shape, 'nontrivial': nontrivial,
-                'config': plan['config'], 'hash_sensitive': any(o['op'] == 'interrupt' for o in plan['ops']), 'violations': viol, 'extra': {'sum': {'core_runs': 1 if core else 0, 'notes': n_notes}, 'ivs': sorted(ivs_done)}}
+                'config': plan['config'], 'hash_sensitive': any(o['op'] == 'interrupt' or o.get('reenter') for o in plan['ops']), 'violations': viol, 'extra': {'sum': {'core_runs': 1 if core else 0, 'notes': n_notes}, 'ivs': sorted(ivs_done)}}
+
+    @staticmethod
+    def _transpose_with_nested_call(kp, op, h, texts, fresh, iv, direction, add_v, probes, bump, faults, log):
+        """h.to_transposed(...) during which, at a seeded kernpy line event, a callback transposes another pitch through the public
+        pitch API. The nested call must give what it gives alone; the outer call is judged by the caller like any other."""
+        from kernpy.core.transposer import IntervalsByName
+        re = op['reenter']
+
+        def nested():
+            ivn = IntervalsByName[re['iv']]
+            p = kp.transpose_encoding_to_agnostic(re['pitch'], ivn, direction=re['dir'])
+            return [kp.transpose(re['pitch'], ivn, direction=re['dir']), p.name, p.octave]
+        try:
+            alone = nested()
+        except Exception as e:
+            alone = 'raised ' + type(e).__name__
+        inj = intr.injector(kernpy_src())
+        total = 0
+        try:
+            replica, _ = kp.loads(texts[h['src']])
+            total = inj.count_events(lambda: replica.to_transposed(iv, direction))
+        except Exception:
+            pass
+        if total <= 0:
+            return h['doc'].to_transposed(fresh(iv), fresh(direction))
+        got = {}
+
+        def cb():
+            try:
+                got['v'] = nested()
+            except Exception as e:
+                got['v'] = 'raised ' + type(e).__name__
+        delivered, out = inj.run_with_callback(lambda: h['doc'].to_transposed(fresh(iv), fresh(direction)), 1 + re['k_u'] % total, cb)
+        bump(faults, 'reentrant_callback')
+        log.emit('fault', 'reenter', [re['pitch'], re['iv'], re['dir']], [delivered, out[0]])
+        if delivered:
+            bump(probes, 'reentrant_callback_delivered')
+            if got.get('v') != alone:
+                add_v('reentrancy', 'reentrancy/nested-pitch-call-differs', alone, got.get('v'), pitch=re['pitch'], iv=re['iv'])
+        if out[0] != 'ok':
+            raise out[1]
+        return out[1]
 
     # ---- reference model -------------------------------------------------------------------------
     def _expected(self, doc, h, chain, kind):
